@@ -144,13 +144,17 @@ func checkBinderLocations(c *Ctx, rule string, ev *tmpl.Evaluator) {
 	if m := regexp.MustCompile(`(\w+) := runtime\.Values\(\w+\.URL\.Query\(\)\)`).FindStringSubmatch(l.Text); m != nil {
 		qv = m[1]
 	}
-	if m := regexp.MustCompile(`(\w+) := runtime\.Values\(\w+\.Form\)`).FindStringSubmatch(l.Text); m != nil {
+	merged := false
+	if m := regexp.MustCompile(`(\w+) := runtime\.Values\(\w+\.(Form|PostForm)\)`).FindStringSubmatch(l.Text); m != nil {
 		fv = m[1]
+		merged = m[2] == "Form"
 	}
 	if qv == "" || fv == "" {
-		c.Bad(rule, "serverParameter › BindRequest › query / form value sets", l.Tree.File, "the query values are not taken from r.URL.Query() or the form values not from r.Form")
+		c.Bad(rule, "serverParameter › BindRequest › query / form value sets", l.Tree.File, "the query values are not taken from r.URL.Query() or the form values not from the request's form")
 		return
 	}
+	c.Check(!merged, rule, "serverParameter › BindRequest › form values come from the form alone", l.Tree.File, "runtime.Values(r.PostForm)",
+		"the form values are taken from http.Request.Form, which holds the body form followed by the URL query: a formData parameter sharing its name with a query parameter is bound to the query value")
 	acc := []struct{ loc, rx string }{
 		{"IsQueryParam", `[^\w.]` + regexp.QuoteMeta(qv) + `\.GetOK\(⟦\.Path⟧\)`},
 		{"IsPathParam", `route\.Params\.GetOK\(⟦\.Path⟧\)`},
